@@ -12,6 +12,7 @@
 -/
 import PdshVerif.Exec.Lemmas
 import PdshVerif.Exec.EndToEnd
+import PdshVerif.Exec.Ssh
 import PdshVerif.Opt.RcmdLemmas
 
 namespace PdshVerif.C09
@@ -434,6 +435,59 @@ theorem f09_2br_repaired :
     runRe cfg [w] w.full = .lines (expectedLines cfg [w] w.full) := by
   decide
 
+/-- the registry is keyed by the WHOLE host name: an entry found for `h` is an entry registered under
+    exactly `h`, and there is one iff some annotated word's expansion contains exactly `h` -- a name
+    that is a prefix (or an extension) of a registered name is a different host -/
+theorem rcmd_lookup_exact (cfg : Cfg) (words : List Word) (reg : List Entry) (h : Str)
+    (hrun : processWords cfg (words.map reExpand) [] = some reg) :
+    (∀ e, lookup reg h = some e → e.host = h) ∧
+    ((lookup reg h).isSome = true ↔ ∃ w ∈ words, annotated w = true ∧ h ∈ w.full) := by
+  constructor
+  · intro e he
+    unfold lookup at he
+    have := List.find?_some he
+    simpa using this
+  · have hf := first_word_wins_reexpand cfg words reg h hrun
+    have hiff : (lookup reg h).isSome = (firstNaming words h).isSome := by
+      have := congrArg Option.isSome hf
+      simpa using this
+    rw [hiff]
+    unfold firstNaming
+    constructor
+    · intro hs
+      cases hfind : words.find? (fun w => annotated w && w.full.contains h) with
+      | none => rw [hfind] at hs; cases hs
+      | some w =>
+        have hm := List.mem_of_find?_eq_some hfind
+        have hp := List.find?_some hfind
+        simp only [Bool.and_eq_true, List.contains_eq_mem, decide_eq_true_eq] at hp
+        exact ⟨w, hm, hp.1, hp.2⟩
+    · rintro ⟨w, hw, ha, hh⟩
+      cases hfind : words.find? (fun w => annotated w && w.full.contains h) with
+      | none =>
+        have := List.find?_eq_none.mp hfind w hw
+        simp [ha, hh] at this
+      | some w' =>
+        have hp := List.find?_some hfind
+        simp only [Bool.and_eq_true] at hp
+        -- an annotated word parses
+        simp only
+        unfold annotated at hp
+        cases hpar : parse w'.text with
+        | none => rw [hpar] at hp; simp at hp
+        | some p => rfl
+
+/-- n1 and n10 (one name a string prefix of the other) are different hosts: `alice@n1,n10` contacts
+    n10 as the default user, `alice@n10,bob@n1` keeps both registrations -/
+example :
+    let cfg : Cfg := ⟨["exec".toList], ["exec".toList], none, none, none, "me".toList⟩
+    let w (t : String) (hs : List String) : Word := ⟨t.toList, hs.map String.toList, hs.map String.toList⟩
+    (match runRe cfg [w "alice@n1" ["n1"], w "n10" ["n10"]] ["n1".toList, "n10".toList] with
+     | .lines ls => ls.map (fun l => String.ofList l.user) | .fatal => []) = ["alice", "me"] ∧
+    (match runRe cfg [w "alice@n10" ["n10"], w "bob@n1" ["n1"]] ["n10".toList, "n1".toList] with
+     | .lines ls => ls.map (fun l => String.ofList l.user) | .fatal => []) = ["alice", "bob"] := by
+  decide
+
 /-- F09-2BR witness: a two-bracket word is registered under its first-level names, so the final
     hosts are not found and fall back to the defaults although the word names them
     (`-w u@foo[1-2]-[0-1]`: foo1-0 is contacted as the local user) -/
@@ -466,6 +520,13 @@ theorem wire_request_exact (port : Option Nat) (luser ruser cmd : List Char)
   intro t ht
   rw [h] at ht
   exact (Option.some.inj ht).symm
+
+/-- nothing is clamped: the request is as long as its four fields plus their terminators, for
+    every command length -/
+theorem request_length (port : Option Nat) (luser ruser cmd : List Char) :
+    (xrcmdWrites port luser ruser cmd).flatten.length =
+      (portField port).length + luser.length + ruser.length + cmd.length + 4 := by
+  cases port <;> simp [xrcmdWrites, portField] <;> omega
 
 theorem joinCmd_nul_free (argv : List Str) (h : ∀ a ∈ argv, nul ∉ a) : nul ∉ joinCmd argv := by
   induction argv with
@@ -542,6 +603,50 @@ theorem rsh_end_to_end (cfg : Cfg) (words : List Word) (targets : List Str) (ls 
   refine ⟨hi', ?_⟩
   rw [hg]
   exact (wire_request_exact port cfg.luser _ (joinCmd argv) hlu hru (joinCmd_nul_free argv hargv)).1
+
+/-! ## the ssh transport (src/modules/sshcmd.c; not built in the verified configuration) -/
+
+/-- ssh is started with argv = "ssh", then the template (PDSH_SSH_ARGS[_APPEND] split at blanks and
+    completed with "-l%u" / "%h" as `fixup` says), then the command words -- every one of them with
+    %h %u %n %% replaced and everything else byte for byte: quotes, backslashes (also trailing ones)
+    and unknown %x sequences are not touched -/
+theorem ssh_argv_exact (e : Env) (append args dshpath : Option Ssh.Str) (luser : Ssh.Str) (pcp : Bool)
+    (words : List Ssh.Str) (cmd tail : Ssh.Str)
+    (hn : ∀ a ∈ Ssh.sshArgv append args dshpath luser e.user pcp words cmd, nul ∉ a) :
+    Ssh.sshCall repaired e append args dshpath luser pcp words cmd tail =
+      some ("ssh".toList :: (Ssh.sshArgv append args dshpath luser e.user pcp words cmd).map (expected e)) := by
+  obtain ⟨l, hl, hv, _⟩ := argv_length_preserved e "ssh".toList _ tail hn
+  simp only [Ssh.sshCall, hl, Option.map_some, hv, expectedArgv]
+
+/-- ... hence command words without '%' reach ssh verbatim, whatever else they contain -/
+theorem ssh_command_verbatim (e : Env) (append args dshpath : Option Ssh.Str) (luser : Ssh.Str)
+    (w0 : Ssh.Str) (rest : List Ssh.Str) (cmd : Ssh.Str) (hp : ∀ w ∈ w0 :: rest, '%' ∉ w) :
+    (Ssh.sshArgv append args dshpath luser e.user false (w0 :: rest) cmd).map (expected e) =
+      (Ssh.fixup (Ssh.template append args dshpath) (luser != e.user)).map (expected e) ++ (w0 :: rest) := by
+  have : (w0 :: rest).map (expected e) = w0 :: rest := by
+    have gen : ∀ (l : List Ssh.Str), (∀ w ∈ l, '%' ∉ w) → l.map (expected e) = l := by
+      intro l
+      induction l with
+      | nil => intro _; rfl
+      | cons a r ih =>
+        intro h
+        simp only [List.map_cons]
+        rw [no_percent_id e a (h a (by simp)), ih (fun w hw => h w (by simp [hw]))]
+    exact gen _ hp
+  simp only [Ssh.sshArgv, Bool.false_or, List.isEmpty_cons, Bool.false_eq_true, if_false, List.map_append, this]
+
+/-- the default template "-2 -a -x %h" for a remote user that differs from the local one -/
+theorem ssh_default_fixup :
+    Ssh.fixup (["-2", "-a", "-x", "%h"].map String.toList) true =
+      ["-2", "-a", "-x", "-l%u", "%h"].map String.toList := by
+  decide
+
+/-- a command word is NOT exempt from the substitution: `pdsh -R ssh -w n1 -l bob echo %h` makes ssh
+    run `echo n1` (finding F09-SSHPCT; `echo %%h` is the way to say %h) -/
+theorem ssh_percent_witness :
+    (["echo", "%h", "100%%"].map String.toList).map (expected ⟨"n1".toList, "bob".toList, 0⟩) =
+      ["echo", "n1", "100%"].map String.toList := by
+  decide
 
 /-- the hypotheses of the theorems above are satisfiable by a non-trivial run: two overlapping
     annotated words, -l, and a default from the rank list -/
